@@ -108,6 +108,9 @@ def _generate(rng, index, tier, extra):  # pylint: disable=unused-argument
     if extra and extra.get('phase') == 'fields':
         path, hexdata = field_list()[index]
         return {'kind': 'sweep', 'cls': path, 'hex': hexdata, 'fields': True}
+    if extra and extra.get('phase') == 'consts':
+        path, hexdata = field_list()[index]
+        return {'kind': 'sweep', 'cls': path, 'hex': hexdata, 'consts': True}
     if extra and extra.get('phase') == 'bigint':
         path, hexdata = field_list()[index]
         return {'kind': 'sweep', 'cls': path, 'hex': hexdata, 'bigint': 'all' if tier == 'thorough' else 1200}
@@ -343,6 +346,10 @@ def _exec_sweep(doc, res):
     elif doc.get('fields'):
         plan = [('field%d' % size, off, val) for size, values in sorted(FIELD_VALUES.items()) for val in values
                 for off in range(0, len(raw) - size + 1)]
+    elif doc.get('consts'):
+        # every byte-string constant the library defines, written over every offset
+        plan = [('const', off, const.hex()) for const in wirefault.byte_constants()
+                for off in range(0, len(raw) - len(const) + 1)]
     elif doc.get('bigint'):
         # every length-prefixed span (and every even-length tail) filled with the boundary values of a big integer or
         # of a pair of coordinates: 0, 1, 256^k, all ones, the sign bit
@@ -367,6 +374,13 @@ def _exec_sweep(doc, res):
             data = raw[:off]
             res.stats['fault.trunc'] += 1
             entries = oracles.ENTRY_POINTS
+        elif mode == 'const':
+            const = bytes.fromhex(val)
+            data = raw[:off] + const + raw[off + len(const):]
+            if data == raw:
+                continue
+            res.stats['fault.const'] += 1
+            entries = ('parse_immutable', )
         elif mode == 'fill':
             length, pattern = val.split(':')
             data = raw[:off] + _fill(int(length), pattern) + raw[off + int(length):]
@@ -568,9 +582,11 @@ def check(tier, seed):
     fields = core.run_batch(me, seed, tier, len(field_list()), 400.0, {'phase': 'fields'}, chunk=4)
     names = core.run_batch(me, seed, tier, len(name_list()), 400.0, {'phase': 'names'}, chunk=2)
     bigint = core.run_batch(me, seed, tier, len(field_list()), 600.0, {'phase': 'bigint'}, chunk=4)
+    consts = core.run_batch(me, seed, tier, len(field_list()) if wirefault.byte_constants() else 0, 600.0,
+                            {'phase': 'consts'}, chunk=8)
     n_runs, wall = BUDGET[tier]
     explore = core.run_batch(me, seed, tier, n_runs, wall, extra)
-    batch = core.merge_batches([sweep, fields, names, bigint, explore, histories])
+    batch = core.merge_batches([sweep, fields, names, bigint, consts, explore, histories])
     coverage = core.coverage_from_batch(
         batch, RULE, fault_kinds=wire.FAULT_KINDS,
         probes=('corrupted_input_accepted', 'second_layer_parse', 'faulted_item_accepted_inside_container'),
